@@ -147,11 +147,18 @@ def gen_case(seed, tier):
                 if want != i_val:
                     steps.append({"k": "set", "i": want})
                     i_val = want
+            async_glitch = ("i" not in which) and i_val == 0 and fl.random() < 0.12
+            if async_glitch:
+                # the input rises and falls *between* two input-clock edges while the output clock keeps running:
+                # it is never sampled, so no pulse may come out
+                steps.append({"k": "set", "i": 1})
             ch = {}
             for nme in which:
                 levels[nme] ^= 1
                 ch[nme] = levels[nme]
             steps.append({"k": "ev", "l": ch})
+            if async_glitch:
+                steps.append({"k": "set", "i": 0})
             if o_edge:
                 pending = False
             if i_edge and i_val:
@@ -303,7 +310,7 @@ def run_case(case):
         i, o = dut.i, dut.o
         domains = [DomainSpec("i", edge=config["i_edge"], reset_less=True),
                    DomainSpec("o", edge=config["o_edge"], reset_less=True)]
-        P.update(pulses=0, back_to_back_pulses=0, precondition_broken=0, coincident_pulse_and_o_edge=0)
+        P.update(pulses=0, back_to_back_pulses=0, precondition_broken=0, coincident_pulse_and_o_edge=0, unsampled_input_glitch=0)
     run = ManualRun(dut, domains, sched_mode=case["sched"]["mode"], sched_seed=case["sched"]["seed"],
                     extra_lines=extra_lines)
     if kind == "reset":
